@@ -60,7 +60,10 @@ pub struct FlowCfg {
 }
 
 pub fn gen_issuer_key(r: &mut Rng) -> (KeyId, Option<String>) {
-    match r.below(12) {
+    match r.below(14) {
+        // RSA issuers (PKCS#1 v1.5 and PSS, every hash size): the algorithm family has no bearing on anything but the signature
+        12 => (KeyId::IssuerRsa, Some(r.pick(&["RS256", "RS384", "RS512"]).to_string())),
+        13 => (if r.chance(1, 2) { KeyId::IssuerRsa } else { KeyId::IssuerRsa2 }, Some(r.pick(&["PS256", "PS384", "PS512", "RS256"]).to_string())),
         0 | 1 => (KeyId::IssuerEc, None),
         2 | 3 | 4 => (KeyId::IssuerEc, Some("ES256".into())),
         5 | 6 => (KeyId::IssuerEd, Some("EdDSA".into())),
